@@ -16,7 +16,7 @@ FLOORS = {
     'quick': dict({'distinct_nontrivial': 6000, 'kind:parser-error': 6000, 'kind:eof-error': 2500, 'kind:lexer-error': 800,
                    'set:dynamic-allowed-exact': 2500, 'set:earley-basic-expected-superset': 1500, 'set:lalr-accepts-subset': 2500,
                    'pos:lalr==reference-driver': 2500, 'pos:lalr==first-non-viable-token': 800, 'pos:dynamic==max-live-offset': 2500,
-                   'eof:$END-borrows-last-token': 600, 'feature:has-ignore': 1500, 'corpus': 6},
+                   'eof:$END-borrows-last-token': 600, 'on_error:skip-everything': 3000, 'on_error:$END-after-recovery': 300, 'feature:has-ignore': 1500, 'corpus': 6},
                   **{'judged:%s/%s' % e: 800 for e in ENGINES}),
     'thorough-unused': dict({'distinct_nontrivial': 120000, 'kind:parser-error': 100000, 'kind:eof-error': 40000, 'kind:lexer-error': 12000, 'corpus': 6},
                      **{'judged:%s/%s' % e: 12000 for e in ENGINES}),
@@ -223,10 +223,44 @@ def judge_scannerless(ctx, rg, names, is_red, lexer, s, w, out, case):
     return kind, problems, M >= 1
 
 
-def judge_not_earlier(ctx, rg, lexer, s, w, out):
+def on_error_checks(ctx, rg, l, lexer, s, w, case):
+    """parse(text, on_error=handler) on a rejected input: (a) a handler that skips everything must still end - with a tree
+    or an UnexpectedInput - within the step budget ("never a hang"); (b) a handler that skips bad tokens but gives up at
+    the end of input must leave an unexpected $END that carries the coordinates of the last token of the text"""
+    out = call(ctx, 'parse(on_error)', l.parse, w, start=s, on_error=lambda e: True, budget=PARSE_BUDGET)
+    ctx.count('on_error:skip-everything')
+    if out[0] == 'budget':
+        ctx.violation('hang:parse(on_error)-does-not-end:lalr/%s' % lexer, dict(case, on_error='skip-everything'), {'budget': out[1]})
+        return
+    if out[0] == 'exc' and not out[1].get('is_ui'):
+        ctx.violation('parse(on_error)-raises-other-exception:lalr/%s' % lexer, dict(case, on_error='skip-everything'), {'exc': out[1]})
+        return
+    inp, fail = basic_tokens(rg, w)
+    if inp is None or not inp.toks:
+        return
+
+    def give_up_at_end(e):
+        return getattr(getattr(e, 'token', None), 'type', None) not in (None, END)
+    out = call(ctx, 'parse(on_error)', l.parse, w, start=s, on_error=give_up_at_end, budget=PARSE_BUDGET)
+    if out[0] == 'exc' and out[1].get('token_type') == END and isinstance(out[1].get('token'), list):
+        last = inp.toks[-1]
+        l1, c1 = R.line_col(w, last[2])
+        l2, c2 = R.line_col(w, last[3])
+        ctx.count('on_error:$END-after-recovery')
+        if out[1]['token'][3:9] != [last[2], last[3], l1, c1, l2, c2]:
+            ctx.violation('$END-after-recovery-does-not-carry-last-token-coordinates:lalr/%s' % lexer, dict(case, on_error='give-up-at-end'),
+                          {'expected': [last[2], last[3], l1, c1, l2, c2], 'token': out[1]['token']})
+
+
+def judge_not_earlier(ctx, rg, lexer, s, w, out, ref=None):
     """grammars with useless symbols: parsers follow productions that can never complete, so they may
-    notice the error later than the first non-extendable position, but never before it"""
+    notice the error later than the first non-extendable position, but never before it.
+    ref: the reference automaton when the parser is LALR - once a conflict was resolved (shift preferred, priorities)
+    the automaton recognises less than the grammar derives and the grammar's viable prefixes say nothing"""
     exc = out[1]
+    if ref is not None and (ref.sr or ref.rr_resolved):
+        ctx.count('not-judged:non-reduced-grammar-with-resolved-conflicts')
+        return None
     if lexer.startswith('dynamic'):
         inp = R.CharInput(rg, w, *(('pref', 'pref') if lexer == 'dynamic' else ('all', 'all')))
         ch = R.Chart(rg, inp)
@@ -318,12 +352,14 @@ def run_grammar(ctx, G, family, inputs, engines=ENGINES):
                     ctx.violation('hang:no-result-within-step-budget:%s/%s' % (parser, lexer), case, {'budget': out[1]})
                     continue
                 exc = out[1]
+                if parser == 'lalr' and (len(hist) % 3 == 0):
+                    on_error_checks(ctx, rg, l, lexer, s, w, case)
                 if parser == 'cyk':
                     r = ('cyk', [] if (exc['class'] == 'ParseError' or exc['is_ui']) else [('cyk-raises-other-exception', {})], len(w) >= 1)
                 elif not exc.get('is_ui'):
                     r = ('not-UnexpectedInput', [('rejection-is-not-an-UnexpectedInput', {})], len(w) >= 1)
                 elif not is_red:
-                    r = judge_not_earlier(ctx, rg, lexer, s, w, out)
+                    r = judge_not_earlier(ctx, rg, lexer, s, w, out, ref if parser == 'lalr' else None)
                 elif lexer.startswith('dynamic'):
                     r = judge_scannerless(ctx, rg, names, is_red, lexer, s, w, out, case)
                 else:
@@ -389,6 +425,13 @@ CORPUS = [
     ('empty-language-tail', {'rules': [gen.rule('start', [gen.alt([gen.LIT('a'), ['r', 'u']]), gen.alt([gen.LIT('b')])]), gen.rule('u', [gen.alt([gen.LIT('c'), ['r', 'u']])])],
                              'terms': [], 'ignore': [], 'start': ['start'], 'alphabet': list('abc')},
      ['a', 'ac', 'acc', 'bb', 'c']),
+    # ignorable text inside a token: the scannerless parsers find an %ignore match at an offset where nothing is being
+    # scanned, and one that reaches beyond the place where the sentence breaks off
+    ('ignorable-text-inside-token', {'rules': [gen.rule('start', [gen.alt([['t', 'Q'], ['t', 'X']]), gen.alt([['t', 'Q'], ['t', 'Q'], ['t', 'B']])])],
+                                     'terms': [gen.term('Q', ['x', 'c[^c]*c', ''], ex=['cc', 'c#c']), gen.term('X', ['x', 'x', ''], ex=['x']), gen.term('B', ['x', 'b', ''], ex=['b']),
+                                               gen.term('CM', ['x', '#[^x]*', ''], ex=['#']), gen.term('WS', ['x', ' +', ''], ex=[' '])],
+                                     'ignore': ['CM', 'WS'], 'start': ['start'], 'alphabet': list('cxb# a')},
+     ['c#bc abab', 'c#bc ab', 'c#bcb', 'c#bcx', 'c#bc x', 'c bc  ab', 'c#c', 'cc #ab b', 'c#acc#bbcab', 'c c  c   ca', 'c#c #x#b']),
 ]
 
 
